@@ -43,8 +43,16 @@ def constructor_free(ck):
             if creator == "add_virtual_targets":
                 ok = P.call_name(val) == "cb.add_virtual_targets"
             else:
-                cs = T.contents(fr.effects(), P.norm(val))
-                ok = len(cs) == 1 and cs[0][0] == "one" and isinstance(cs[0][1], tuple) and cs[0][1][0] == "array" and len(cs[0][1][1]) == 4 and all(P.call_name(x) == "cb.add_virtual_target" for x in cs[0][1][1])
+                # one [add_virtual_target(); 4] per slot: pushed in a loop or produced by map(..).collect(); the four targets written
+                # as an array literal or as array::from_fn(|_| add_virtual_target())
+                pv = circ.per_iteration_value(fr, fr.effects(), val)
+                if pv is not None:
+                    four = pv[0]
+                    if isinstance(four, tuple) and four and four[0] == "from_fn":
+                        four = ("array", tuple(P.norm(fr.index(four, ("c", k, None))) for k in range(4)))
+                    per = lambda x: P.call_name(x) == "cb.add_virtual_target" or (isinstance(x, tuple) and x and x[0] == "idx" and isinstance(x[1], tuple) and x[1] and x[1][0] == "from_fn"
+                                                                                    and P.call_name(fr.closure_ret(x[1][1], [x[2]])) == "cb.add_virtual_target")
+                    ok = isinstance(four, tuple) and four[0] == "array" and len(four[1]) == 4 and all(per(x) for x in four[1])
         ck.require(ok, "FREE", "agg/free/stored/" + field, "the created targets are exactly what is stored in targets.%s (filled by the prover as an input)" % field, "%s:%s" % (body.file, body.line),
                    T.show(val)[:200] if val is not None else None)
 
